@@ -917,6 +917,12 @@ Error query_rw_info(Arch arch, const BaseInst& inst, const Operand_* operands, s
         if (mem_op.has_index_reg() && !op.has_op_flag(OpRWFlags::kMemIndexRW)) {
           op.add_op_flags(OpRWFlags::kMemIndexRead);
         }
+
+        // AVX-512 gather and scatter (vector index) clear the bits of their {k} mask as elements complete.
+        if (Support::is_between(mem_op.index_type(), RegType::kVec128, RegType::kVec512) && inst.has_extra_reg() && inst.extra_reg().type() == RegType::kMask) {
+          out->_extra_reg.add_op_flags(OpRWFlags::kWrite);
+          out->_extra_reg.set_write_byte_mask(0xFF);
+        }
       }
     }
 
